@@ -13,6 +13,8 @@ for d in sorted(glob.glob(os.path.join(V, "seeded", "*", ""))):
     if r["status"] == "caught":
         cls = [c for c in cb.get("classes", [])]
         how = "`bin/check %s` (%s): %s" % (cb.get("check"), cb.get("tier"), ", ".join(cls)[:160] or cb.get("how", ""))
+    elif r["status"] == "equivalent-after-fix":
+        how = "no longer breaks the property on the repaired tree: " + r.get("note", "")[:260]
     elif r["status"] == "patch-does-not-apply":
         how = "patch no longer applies to the current tree"
     summ = (meta.get("summary") or "").replace("|", "/").replace("\n", " ")
